@@ -43,3 +43,186 @@ theorem extract_some_perm {k : Key} {l rest : List (Key × Buf)} {b : Buf}
         exact (List.Perm.cons _ (ih he)).trans (List.Perm.swap _ _ _)
 
 end Gama.MTF
+
+namespace Gama.MTF
+variable {Key Buf : Type} [DecidableEq Key]
+
+/-- well-formedness: keys are distinct and no buffer is held twice -/
+structure WF (m : MTF Key Buf) : Prop where
+  keysNodup : (m.ents.map Prod.fst).Nodup
+  bufsNodup : (m.ents.map Prod.snd ++ m.free).Nodup
+
+theorem extract_some_mem {k : Key} {l rest : List (Key × Buf)} {b : Buf}
+    (h : extract k l = some (b, rest)) : (k, b) ∈ l :=
+  (extract_some_perm h).mem_iff.mpr (List.mem_cons_self ..)
+
+theorem extract_some_sub {k : Key} {l rest : List (Key × Buf)} {b : Buf}
+    (h : extract k l = some (b, rest)) : ∀ e ∈ rest, e ∈ l := fun e he =>
+  (extract_some_perm h).mem_iff.mpr (List.mem_cons_of_mem _ he)
+
+theorem wf_init (bufs : List Buf) (h : bufs.Nodup) : WF (init bufs : MTF Key Buf) :=
+  ⟨by simp [init], by simpa [init] using h⟩
+
+theorem wf_erase {m : MTF Key Buf} (h : WF m) : WF m.erase :=
+  ⟨by simp [erase], by simpa [erase] using h.bufsNodup⟩
+
+theorem cap_erase (m : MTF Key Buf) : m.erase.cap = m.cap := by
+  simp [erase, cap]
+
+/-- outcome of `get`, case by case, in a form convenient for invariants -/
+inductive GetSpec (m : MTF Key Buf) (k : Key) : MTF Key Buf → Buf → Bool → Prop
+  | hit (b : Buf) (rest : List (Key × Buf)) (hp : m.ents.Perm ((k, b) :: rest)) :
+      GetSpec m k ⟨(k, b) :: rest, m.free⟩ b true
+  | missFree (b : Buf) (free' : List Buf) (hf : m.free = b :: free') (hk : k ∉ m.ents.map Prod.fst) :
+      GetSpec m k ⟨(k, b) :: m.ents, free'⟩ b false
+  | missFull (kl : Key) (b : Buf) (front : List (Key × Buf)) (he : m.ents = front ++ [(kl, b)])
+      (hf : m.free = []) (hk : k ∉ m.ents.map Prod.fst) :
+      GetSpec m k ⟨(k, b) :: front, []⟩ b false
+
+theorem get_spec (m : MTF Key Buf) (k : Key) (hc : 0 < m.cap) :
+    ∃ m' b g, m.get k = some (m', (b, g)) ∧ GetSpec m k m' b g := by
+  unfold get
+  cases he : extract k m.ents with
+  | some p =>
+    obtain ⟨b, rest⟩ := p
+    exact ⟨_, _, _, rfl, .hit b rest (extract_some_perm he)⟩
+  | none =>
+    have hk := (extract_none_iff k m.ents).mp he
+    cases hf : m.free with
+    | cons b free' => exact ⟨_, _, _, rfl, .missFree b free' hf hk⟩
+    | nil =>
+      have hne : m.ents ≠ [] := by
+        intro h; simp [cap, h, hf] at hc
+      obtain ⟨front, last, hl⟩ : ∃ front last, m.ents = front ++ [last] :=
+        ⟨m.ents.dropLast, m.ents.getLast hne, (List.dropLast_concat_getLast hne).symm⟩
+      obtain ⟨kl, bl⟩ := last
+      refine ⟨⟨(k, bl) :: front, []⟩, bl, false, ?_, .missFull kl bl front hl hf hk⟩
+      simp [hl]
+
+theorem GetSpec.wf {m m' : MTF Key Buf} {k : Key} {b : Buf} {g : Bool}
+    (h : GetSpec m k m' b g) (hw : WF m) : WF m' := by
+  cases h with
+  | hit b rest hp =>
+    refine ⟨?_, ?_⟩
+    · have := (hp.map Prod.fst).nodup_iff.mp hw.keysNodup; simpa using this
+    · have hp2 : (m.ents.map Prod.snd ++ m.free).Perm (((k, b) :: rest).map Prod.snd ++ m.free) :=
+        (hp.map Prod.snd).append_right _
+      exact hp2.nodup_iff.mp hw.bufsNodup
+  | missFree b free' hf hk =>
+    refine ⟨?_, ?_⟩
+    · exact List.nodup_cons.mpr ⟨hk, hw.keysNodup⟩
+    · have := hw.bufsNodup
+      rw [hf] at this
+      have hp : (m.ents.map Prod.snd ++ b :: free').Perm (b :: (m.ents.map Prod.snd ++ free')) :=
+        List.perm_middle
+      simpa using hp.nodup_iff.mp this
+  | missFull kl b front he hf hk =>
+    have hkn := hw.keysNodup
+    have hbn := hw.bufsNodup
+    rw [he] at hkn hk
+    rw [he, hf] at hbn
+    simp only [List.map_append, List.map_cons, List.map_nil, List.append_nil] at hkn hbn hk
+    refine ⟨?_, ?_⟩
+    · have h1 : (front.map Prod.fst).Nodup := (List.nodup_append.mp hkn).1
+      have h2 : k ∉ front.map Prod.fst := fun hh => hk (List.mem_append_left _ hh)
+      exact List.nodup_cons.mpr ⟨h2, h1⟩
+    · have hp : (front.map Prod.snd ++ [b]).Perm (b :: front.map Prod.snd) :=
+        List.perm_append_comm
+      simpa using hp.nodup_iff.mp hbn
+
+theorem GetSpec.cap {m m' : MTF Key Buf} {k : Key} {b : Buf} {g : Bool}
+    (h : GetSpec m k m' b g) : m'.cap = m.cap := by
+  cases h with
+  | hit b rest hp => simp [MTF.cap, hp.length_eq]
+  | missFree b free' hf hk => simp [MTF.cap, hf]; omega
+  | missFull kl b front he hf hk => simp [MTF.cap, he, hf]
+
+theorem GetSpec.head {m m' : MTF Key Buf} {k : Key} {b : Buf} {g : Bool}
+    (h : GetSpec m k m' b g) : ∃ rest, m'.ents = (k, b) :: rest := by
+  cases h <;> exact ⟨_, rfl⟩
+
+/-- on a hit the returned buffer is the one associated with the key -/
+theorem GetSpec.hit_mem {m m' : MTF Key Buf} {k : Key} {b : Buf}
+    (h : GetSpec m k m' b true) : (k, b) ∈ m.ents := by
+  cases h with
+  | hit b rest hp => exact hp.mem_iff.mpr (List.mem_cons_self ..)
+
+theorem GetSpec.miss_fresh {m m' : MTF Key Buf} {k : Key} {b : Buf}
+    (h : GetSpec m k m' b false) : k ∉ m.ents.map Prod.fst := by
+  cases h with
+  | missFree b free' hf hk => exact hk
+  | missFull kl b front he hf hk => exact hk
+
+/-- entries that survive a `get` were there before -/
+theorem GetSpec.old {m m' : MTF Key Buf} {k : Key} {b : Buf} {g : Bool}
+    (h : GetSpec m k m' b g) : ∀ k' b', (k', b') ∈ m'.ents → k' ≠ k → (k', b') ∈ m.ents := by
+  intro k' b' hm hne
+  cases h with
+  | hit b rest hp =>
+    have : (k', b') ∈ (k, b) :: rest := hm
+    exact hp.mem_iff.mpr this
+  | missFree b free' hf hk =>
+    have : (k', b') ∈ (k, b) :: m.ents := hm
+    rcases List.mem_cons.mp this with h1 | h1
+    · exact absurd (congrArg Prod.fst h1) hne
+    · exact h1
+  | missFull kl b front he hf hk =>
+    have : (k', b') ∈ (k, b) :: front := hm
+    rcases List.mem_cons.mp this with h1 | h1
+    · exact absurd (congrArg Prod.fst h1) hne
+    · rw [he]; exact List.mem_append_left _ h1
+
+/-- the most recently used entry survives the next `get` when there are at least two buffers -/
+theorem GetSpec.keeps_front {m m' : MTF Key Buf} {k : Key} {b : Buf} {g : Bool}
+    (h : GetSpec m k m' b g) {k0 : Key} {b0 : Buf} {rest : List (Key × Buf)}
+    (hh : m.ents = (k0, b0) :: rest) (hne : k0 ≠ k) (hc : 2 ≤ m.cap) : (k0, b0) ∈ m'.ents := by
+  cases h with
+  | hit b rest' hp =>
+    have : (k0, b0) ∈ m.ents := by rw [hh]; exact List.mem_cons_self ..
+    exact hp.mem_iff.mp this
+  | missFree b free' hf hk =>
+    show (k0, b0) ∈ (k, b) :: m.ents
+    rw [hh]; exact List.mem_cons_of_mem _ (List.mem_cons_self ..)
+  | missFull kl b front he hf hk =>
+    show (k0, b0) ∈ (k, b) :: front
+    have hlen : 2 ≤ m.ents.length := by simpa [MTF.cap, hf] using hc
+    cases front with
+    | nil => rw [he] at hlen; simp at hlen
+    | cons f front' =>
+      have : f = (k0, b0) := by
+        have := he.symm.trans hh
+        simp at this; exact this.1
+      rw [this]; exact List.mem_cons_of_mem _ (List.mem_cons_self ..)
+
+theorem nodup_fst_inj {α β : Type} {l : List (α × β)} (h : (l.map Prod.fst).Nodup)
+    {a : α} {b1 b2 : β} (h1 : (a, b1) ∈ l) (h2 : (a, b2) ∈ l) : b1 = b2 := by
+  induction l with
+  | nil => cases h1
+  | cons e l ih =>
+    simp only [List.map_cons, List.nodup_cons] at h
+    rcases List.mem_cons.mp h1 with r1 | r1 <;> rcases List.mem_cons.mp h2 with r2 | r2
+    · rw [← r1] at r2; exact (Prod.mk.inj r2).2.symm
+    · exfalso; apply h.1; rw [← r1]; exact List.mem_map.mpr ⟨_, r2, rfl⟩
+    · exfalso; apply h.1; rw [← r2]; exact List.mem_map.mpr ⟨_, r1, rfl⟩
+    · exact ih h.2 r1 r2
+
+theorem nodup_snd_inj {α β : Type} {l : List (α × β)} (h : (l.map Prod.snd).Nodup)
+    {a1 a2 : α} {b : β} (h1 : (a1, b) ∈ l) (h2 : (a2, b) ∈ l) : a1 = a2 := by
+  induction l with
+  | nil => cases h1
+  | cons e l ih =>
+    simp only [List.map_cons, List.nodup_cons] at h
+    rcases List.mem_cons.mp h1 with r1 | r1 <;> rcases List.mem_cons.mp h2 with r2 | r2
+    · rw [← r1] at r2; exact (Prod.mk.inj r2).1.symm
+    · exfalso; apply h.1; rw [← r1]; exact List.mem_map.mpr ⟨_, r2, rfl⟩
+    · exfalso; apply h.1; rw [← r2]; exact List.mem_map.mpr ⟨_, r1, rfl⟩
+    · exact ih h.2 r1 r2
+
+theorem WF.buf_of_key {m : MTF Key Buf} (h : WF m) {k : Key} {b1 b2 : Buf}
+    (h1 : (k, b1) ∈ m.ents) (h2 : (k, b2) ∈ m.ents) : b1 = b2 := nodup_fst_inj h.keysNodup h1 h2
+
+theorem WF.key_of_buf {m : MTF Key Buf} (h : WF m) {k1 k2 : Key} {b : Buf}
+    (h1 : (k1, b) ∈ m.ents) (h2 : (k2, b) ∈ m.ents) : k1 = k2 :=
+  nodup_snd_inj (List.nodup_append.mp h.bufsNodup).1 h1 h2
+
+end Gama.MTF
